@@ -121,6 +121,8 @@ def explore(ctx):
             for when in ("inflight", "afterwrite"):
                 for how in ("cancel", "deadline"):
                     lines.append("e2ec y%d when=%s how=%s" % (k, when, how)); k += 1
+            # many calls given up together while the peer is not reading: every handler still hears of it afterwards
+            lines.append("e2eb x%d n=%d" % (k, rng.choice([80, 100, 150]))); k += 1
             for how in ("cancel", "deadline"):
                 lines.append("e2en z%d how=%s" % (k, how)); k += 1
     triples, tie = C.run_both(ctx, "TestVerifScn", lines, go_timeout=1500)
